@@ -631,8 +631,20 @@ class C05(ShapesPlan):
             "distinct_nontrivial = distinct (shapes, length, constructor, release path) cases executed; the dbg build runs the whole matrix (exhaustive=true), other modes a seeded fraction")
     assumptions = COMMON_ASSUME + ["shapes outside the declared matrix (align > 64, size > 64) are not exercised"]
 
+    def jobs(self, tier, seed):
+        p = ("C05",)
+        j = ShapesPlan.jobs(self, tier, seed)
+        big = tier != "quick"
+        # constructors fed by iterators: every size_hint regime / Vec capacity mode, and lying ExactSizeIterators (debug and release):
+        # the shadow allocator compares the layout at dealloc with the layout at alloc
+        j += simple_jobs("dbg", ["ctor", "seed=%d" % seed] + (["full", "rot=5"] if big else ["rot=2"]), p, nshards=8 if big else 2)
+        j += simple_jobs("rel", ["ctor", "seed=%d" % (seed + 1)] + (["full", "rot=5"] if big else ["rot=1"]), p, nshards=8 if big else 2)
+        j += simple_jobs("dbg", ["faults", "seed=%d" % seed, "part=iter"] + (["big"] if big else []), p)
+        j += simple_jobs("rel", ["faults", "seed=%d" % seed, "part=iter"] + (["big"] if big else []), p)
+        return j
+
     def required(self, counts, sets, other):
-        return need(counts, ["shapes.overflow", "shapes.union", "shapes.str", "shapes.cases"])
+        return need(counts, ["shapes.overflow", "shapes.union", "shapes.str", "shapes.cases", "ctor.FromIterator for Arc<[T]>", "faults.lie.runs"])
 
 
 class C11(ShapesPlan):
